@@ -67,7 +67,9 @@ def check_C18(ctx):
         if hrep is not None:
             ctx.cov["struct_tag_annotation_probes"] = hrep.get("distribution", {}).get("user-type:embedded", 0)
             ctx.cov["tag_value_probes"] = hrep.get("distribution", {}).get("tag-values-ignored", 0) + hrep.get("distribution", {}).get("transplant:wildcard", 0)
-            for v in [x for x in hrep["violations"] if x.get("kind") == "user-type-tag" or (x.get("kind") == "transplant" and "wildcard" in x.get("what", ""))][:4]:
+            # (user-type: values of several structure types in one []interface{} field / adjacent interface fields - each goes out
+            #  under the tags its own annotations name)
+            for v in [x for x in hrep["violations"] if x.get("kind") in ("user-type-tag", "user-type") or (x.get("kind") == "transplant" and "wildcard" in x.get("what", ""))][:4]:
                 ctx.violation("struct-tag", v)
     # a structure's / field's kmip:"NAME" annotation resolves to the tag of that name for user-defined types too, whatever the
     # field that carries it looks like (exported or not): descriptors of random reflect.StructOf types, real (hook) vs Fields.v
@@ -638,7 +640,7 @@ SESSION_PROJ = {
 SESSION_KINDS = {
     "C07": ("stuck", "unanswered-open", "timestamp"),
     "C08": ("serve-error", "serve-stuck"),
-    "C09": ("session-id",),
+    "C09": ("session-id", "auth-gate"),
     "C10": ("not-closed", "goroutine-leak", "stuck", "serve-stuck"),
     "C15": ("deadline",),
 }
